@@ -24,6 +24,7 @@ var (
 func checkC17(c *chk.Ctx) {
 	h := newH(c)
 	c.Decided = []string{
+		"R17k a reconnecting subscriber sends the position it was given whenever it has one (also -1, the position on an empty shard)",
 		"R17j the notification names the same record key as the batch write, on every path of the put",
 		"R17i the reader scans from the resume offset to the END of the notification key space: the upper bound does not depend on the start offset (stored batches have holes: trimmed prefixes, periods with notifications disabled)",
 		"R17a the notification batch of a request is written into the request's own write batch before the commit and carries the request's offset (shared with C07)",
@@ -50,6 +51,7 @@ func checkC17(c *chk.Ctx) {
 	ruleR17h(h)
 	ruleR17i(h)
 	ruleRecordKeyAgreement(h, "R17j")
+	ruleResumePositionNotBySign(h, "R17k")
 }
 
 func ruleR17aOffset(h *H) {
@@ -652,7 +654,18 @@ func ruleR17h(h *H) {
 					}
 				}
 			}
+			resumeStateFlag = nil
+			ir.DependsOn(src, func(x ssa.Value) bool {
+				if fa, isFA := x.(*ssa.FieldAddr); isFA {
+					if ref, okRef := ir.FieldAddrOf(fa); okRef && ref.Struct != nil {
+						resumeStateFlag = positionedFlag(h, ref.Struct, ref.Field)
+						return true
+					}
+				}
+				return false
+			})
 			ok, why := resumeValueOK(vfn, src)
+			resumeStateFlag = nil
 			h.Verdict(ok, rule, name, h.pos(in), "the start offset is only left out while no offset was received", why)
 		})
 	}
@@ -727,13 +740,83 @@ func evalCmpAt(c ir.Cmp, v int64) (bool, bool) {
 }
 
 func resumeBlocked(fn *ssa.Function, isRead func(ssa.Value) bool, v int64) map[ir.Edge]bool {
-	return ir.EdgesWhere(fn, func(c ir.Cmp) bool {
+	out := ir.EdgesWhere(fn, func(c ir.Cmp) bool {
 		if !isRead(c.L) {
 			return false
 		}
 		holds, ok := evalCmpAt(c, v)
 		return ok && !holds
 	})
+	// once an offset was received, the "was positioned" flag of the subscriber is set:
+	// the edges on which that flag is false cannot be taken
+	if resumeStateFlag != nil {
+		for _, b := range fn.Blocks {
+			if len(b.Instrs) == 0 || len(b.Succs) != 2 {
+				continue
+			}
+			iff, ok := b.Instrs[len(b.Instrs)-1].(*ssa.If)
+			if !ok {
+				continue
+			}
+			cond, neg := iff.Cond, false
+			for {
+				u, ok := cond.(*ssa.UnOp)
+				if !ok || u.Op != token.NOT {
+					break
+				}
+				cond, neg = u.X, !neg
+			}
+			if resumeStateFlag(cond) {
+				falseSucc := b.Succs[1]
+				if neg {
+					falseSucc = b.Succs[0]
+				}
+				out[ir.Edge{From: b, To: falseSucc}] = true
+			}
+		}
+	}
+	return out
+}
+
+// resumeStateFlag recognises a read of a boolean field of the subscriber that is raised in
+// a function that also records a received offset (set by ruleR17h for the struct at hand).
+var resumeStateFlag func(ssa.Value) bool
+
+// positionedFlag builds resumeStateFlag for the struct holding the tracked offset field.
+func positionedFlag(h *H, st *types.Named, offsetField string) func(ssa.Value) bool {
+	if st == nil || st.Obj().Pkg() == nil {
+		return nil
+	}
+	pkg, typ := ir.RelPkg(st.Obj().Pkg().Path()), st.Obj().Name()
+	str, ok := st.Underlying().(*types.Struct)
+	if !ok {
+		return nil
+	}
+	offsetWriters := map[*ssa.Function]bool{}
+	for _, w := range h.P.FieldWrites(pkg, typ, offsetField) {
+		if w.Kind != "literal" {
+			offsetWriters[w.Fn] = true
+		}
+	}
+	flags := map[string]bool{}
+	for i := 0; i < str.NumFields(); i++ {
+		f := str.Field(i)
+		if b, ok := f.Type().Underlying().(*types.Basic); !ok || b.Kind() != types.Bool {
+			continue
+		}
+		for _, w := range h.P.FieldWrites(pkg, typ, f.Name()) {
+			if k, ok := w.Val.(*ssa.Const); ok && k.Value != nil && k.Value.String() == "true" && offsetWriters[w.Fn] {
+				flags[f.Name()] = true
+			}
+		}
+	}
+	if len(flags) == 0 {
+		return nil
+	}
+	return func(v ssa.Value) bool {
+		r, ok := ir.FieldLoadOf(ir.Canon(v))
+		return ok && r.Struct != nil && r.Struct.Obj() == st.Obj() && flags[r.Field]
+	}
 }
 
 func resumeValueOK(fn *ssa.Function, val ssa.Value) (bool, string) {
